@@ -62,12 +62,13 @@ func globalWrites(c *Ctx, rule string, only map[*types.Func]bool) int {
 	p := c.P
 	e := p.effects()
 	n := 0
+	initOnly := p.initOnlyFuncs()
 	for _, sf := range p.allSSAFuncs() {
 		root := sf
 		for root.Parent() != nil {
 			root = root.Parent()
 		}
-		if isInitFunc(root.Name()) {
+		if isInitFunc(root.Name()) || initOnly[root] {
 			continue
 		}
 		if only != nil {
@@ -304,9 +305,16 @@ func shapeC20(c *Ctx, cn *types.Func) {
 			return // the time column slot
 		}
 		nStores++
-		b, ok := ast.Unparen(ix.Index).(*ast.BinaryExpr)
+		idx := ast.Unparen(ix.Index)
+		if id, isId := idx.(*ast.Ident); isId {
+			// a local introduced for the repeated i+offset
+			if def := singleDef(p, fd.Body, p.Info.ObjectOf(id)); def != nil {
+				idx = ast.Unparen(def)
+			}
+		}
+		b, ok := idx.(*ast.BinaryExpr)
 		if !ok {
-			c.Bad("C20.shape", key, ix.Pos(), "result indexed by something other than i+offset")
+			c.Unk("C20.shape", key, ix.Pos(), "the index is not of the form i+offset (directly or through a local assigned once)")
 			return
 		}
 		ip, ok1 := pe.pathOf(b.X)
@@ -322,4 +330,99 @@ func shapeC20(c *Ctx, cn *types.Func) {
 		c.OK("C20.shape", key, ix.Pos(), "index i+offset with i ranging over the expanded column list")
 	})
 	c.Floor("C20.shape", nStores, 3)
+}
+
+// initOnlyFuncs: unexported in-package functions every static reference to
+// which is inside package initialisation (or inside another such function):
+// they run before any caller can share state.
+func (p *Program) initOnlyFuncs() map[*ssa.Function]bool {
+	if p.initOnlyMemo != nil {
+		return p.initOnlyMemo
+	}
+	out := p.initOnlyFuncsCompute()
+	p.initOnlyMemo = out
+	return out
+}
+
+func (p *Program) initOnlyFuncsCompute() map[*ssa.Function]bool {
+	refs := map[*ssa.Function]map[*ssa.Function]bool{} // callee -> referrers (roots)
+	for _, sf := range p.allSSAFuncs() {
+		root := sf
+		for root.Parent() != nil {
+			root = root.Parent()
+		}
+		for _, b := range sf.Blocks {
+			for _, in := range b.Instrs {
+				for _, op := range in.Operands(nil) {
+					if fn, ok := (*op).(*ssa.Function); ok && fn.Pkg == p.SPkg && fn.Parent() == nil {
+						if refs[fn] == nil {
+							refs[fn] = map[*ssa.Function]bool{}
+						}
+						refs[fn][root] = true
+					}
+				}
+			}
+		}
+	}
+	out := map[*ssa.Function]bool{}
+	for changed := true; changed; {
+		changed = false
+		for fn, rs := range refs {
+			if out[fn] || fn.Object() == nil || fn.Object().Exported() || fn.Signature.Recv() != nil {
+				continue
+			}
+			all := len(rs) > 0
+			for r := range rs {
+				if !isInitFunc(r.Name()) && !out[r] {
+					all = false
+				}
+			}
+			if all {
+				out[fn] = true
+				changed = true
+			}
+		}
+	}
+	return out
+}
+
+// singleDef returns the defining expression of a local that is assigned
+// exactly once in body (nil otherwise).
+func singleDef(p *Program, body *ast.BlockStmt, obj types.Object) ast.Expr {
+	if obj == nil {
+		return nil
+	}
+	var def ast.Expr
+	n := 0
+	ast.Inspect(body, func(m ast.Node) bool {
+		switch x := m.(type) {
+		case *ast.AssignStmt:
+			for i, l := range x.Lhs {
+				if id, ok := l.(*ast.Ident); ok && p.Info.ObjectOf(id) == obj {
+					n++
+					if len(x.Rhs) == len(x.Lhs) {
+						def = x.Rhs[i]
+					}
+				}
+			}
+		case *ast.IncDecStmt:
+			if id, ok := x.X.(*ast.Ident); ok && p.Info.ObjectOf(id) == obj {
+				n += 2
+			}
+		case *ast.ValueSpec:
+			for i, nm := range x.Names {
+				if p.Info.ObjectOf(nm) == obj {
+					n++
+					if i < len(x.Values) {
+						def = x.Values[i]
+					}
+				}
+			}
+		}
+		return true
+	})
+	if n != 1 {
+		return nil
+	}
+	return def
 }
